@@ -257,6 +257,19 @@ def run(tier):
     acc = Acc()
     for t in JUNK:
         ph_check(acc, t)
+    # "any text whatsoever": every string of up to four characters over a small alphabet of digits, separators, signs, blanks and letters
+    JA = ['0', '1', '9', ':', ';', '.', ',', '-', '+', ' ', 'e', 'x', '\t'] if tier == 'thorough' else ['0', '7', ':', ';', '.', ',', '-', '+', ' ', 'e']
+    for n in range(1, 5):
+        for t in itertools.product(JA, repeat=n):
+            ph_check(acc, ''.join(t))
+    for t in (b'12', 12.5, None, [], ('1',), True):           # not text at all: a number may be passed through, anything else -> ValueError (or TypeError for non-text)
+        acc.n += 1
+        try:
+            U().parse_hms(t)
+        except (ValueError, TypeError):
+            pass
+        except Exception as e:
+            acc.bad('parse:raises-%s' % type(e).__name__, dict(text=repr(t)), 'parse_hms(%r) raised %r' % (t, e))
     for t in ['1:2;3', '1;2:3']:
         pass
     for v in (0, 5, 3670.1, 1e300):
